@@ -238,3 +238,13 @@ Theorem C01_spec_poplast : forall self other k d, has_key self k = true ->
   snd (spec_step self other (PopLast (Some k) d)) = Ok (OVal (last (vals_of self k) none_tok)).
 Proof. exact spec_vals_poplast. Qed.
 Print Assumptions C01_spec_poplast.
+
+(* ---- the checker's two bits coincide on well-formed cases ------------------------------------------- *)
+From Boltons Require Import Proofs.C01_Verdict.
+
+(* agree <-> holds: the models add no constraint of their own beyond the reference, and none is missing;
+   a "disagree" verdict (holds without agree) can only come from an ill-formed case *)
+Theorem C01_agree_iff_holds : forall c, wf_case c ->
+  (fst (fst (c01_verdict c)) = true <-> snd (fst (c01_verdict c)) = true).
+Proof. exact verdict_agree_iff_holds. Qed.
+Print Assumptions C01_agree_iff_holds.
